@@ -47,7 +47,8 @@ def run(prog, chk):
     chk.rule("C18.a", "VSA: value set of every non-constant index into a constant-size table fits the table", floor=7)
     chk.rule("C18.b", "VSA/PAIRF: (pointer, length) reads covered by the length guards; pointer and length advance together; `case n` consumes <= n bytes", floor=5)
     chk.rule("C18.c", "FIN: encoder range tests and Unicode::length agree on the byte count for representatives of every range", floor=10)
-    chk.rule("C18.d", "CNT/VSA: base64 output index bounded by the input index; buffer reserved for the input length", floor=2)
+    chk.rule("C18.d", "FIN: fromBase64 evaluated for the input lengths 0..40 over well-formed characters: for every length it accepts, the "
+                      "largest output index it stores through lies below the size it reserved", floor=1)
     files = ("Unicode.hpp", "String.hpp", "String.cpp")
     fs = [f for f in prog.functions.values() if any(f.file.endswith(x) for x in files)]
     if len(fs) < 50:
@@ -237,22 +238,7 @@ def run(prog, chk):
     if not b64:
         raise AnalysisBroken("String::fromBase64 not found")
     f = b64[0]
-    incs = [n["i"] for n in f.nodes if n["k"] == "UnaryOperator" and n["op"] == "++" and q.no_casts(f.r(n["c"][0])) == "j"]
-    lb = set()
-    for i in incs:
-        lb |= C.loop_blocks(f, i) or set()
-    twice = any(f.find_path(f.node_pos(a), {f.node_pos(b)}, avoid={p for p in [f.node_pos(x) for x in f.find(lambda n: n["k"] == "UnaryOperator" and n["op"] == "++" and q.no_casts(f.r(n["c"][0])) == "i")]}) is not None for a in incs for b in incs)
-    res = [c for c in q.calls(f) if f.nodes[c].get("callee") == "String::reserve"]
-    sized = res and re.search(r"data\.length\(\)|inlen", f.r(q.call_args(f, res[0])[0])) is not None
-    cond = any(b.get("cond") is not None and fin.key(f, b["cond"]) == "(i < inlen)" for b in f.blocks.values())
-    if incs and not twice and sized and cond:
-        chk.ok("C18.d", f, "j advances at most once per input byte, i < inlen, buffer reserved for inlen", "%s:%s" % (f.file, f.line), "CNT over the loop body", evals=len(incs) + 2)
-    else:
-        chk.bad("C18.d", f, "base64-output-bound", "%s:%s" % (f.file, f.line), "the output index can run ahead of the input index or the buffer is not reserved for the input length: write past the reserved output buffer")
-    if any(b.get("cond") is not None and re.search(r"inlen & (0x3|3)\b", fin.key(f, b["cond"])) for b in f.blocks.values()):
-        chk.ok("C18.d", f, "input length must be a multiple of four", "%s:%s" % (f.file, f.line), "early return", nontrivial=False)
-    else:
-        chk.bad("C18.d", f, "base64-length-check", "%s:%s" % (f.file, f.line), "fromBase64 must reject inputs whose length is not a multiple of 4")
+    base64_output_bound(chk, f)
     conversion_ranges(prog, chk, "C18.e")
     formatted_buffers(prog, chk, "C18.f")
 
@@ -390,3 +376,78 @@ def formatted_buffers(prog, chk, rid):
                         "so the last digit is replaced by the terminator while the reported length still counts it" % (
                             size if size is not None else f.r(args[1])[:20], text, need if need is not None else "an unknown number of"))
     chk.extra["snprintf_length_sites"] = n_sites
+
+
+def base64_output_bound(chk, f):
+    """fromBase64 evaluated for every input length 0..40 over well-formed characters: the lengths it accepts, the size it reserves and
+    the largest output index it stores through.  (The length test and the reserved size are two sites that have to agree.)"""
+    where = "%s:%s" % (f.file, f.line)
+    res = [c for c in q.calls(f) if f.nodes[c].get("callee") == "String::reserve"]
+    lens = [k_ for k_ in set(fin.key(f, c) for c in q.calls(f) if (f.nodes[c].get("callee") or "") == "String::length")]
+    outs = [i for i, n in enumerate(f.nodes) if n["k"] == "ArraySubscriptExpr" and f.node_pos(i) is not None and C.loop_blocks(f, i) and
+            any(s_.lhs == i or i in f.desc(s_.lhs) for s_ in q.stores(f))]
+    if not res or not lens or not outs:
+        raise AnalysisBroken("String::fromBase64: reserve call, input length or output stores not found")
+
+    def run_len(n, asm):
+        st = {"cap": None, "max": -1, "unk": set()}
+
+        def trace(e, val):
+            ne = f.nodes[e]
+            if e in res:
+                st["cap"] = fin.eval_expr(f, q.call_args(f, e)[0], val)
+            if e in outs:
+                ix = ne["c"][1]
+                xn = f.nodes[f.strip(ix)]
+                if xn["k"] == "UnaryOperator" and xn.get("op") == "++" and not xn.get("prefix", False) and "++" in f.r(xn["i"])[-3:]:
+                    v = val.get(fin.key(f, xn["c"][0]))       # `out[j++]`: the increment has been applied already, the old value indexes
+                    v = v - 1 if isinstance(v, int) else None
+                else:
+                    v = fin.eval_expr(f, ix, val)
+                if v is None:
+                    st["max"] = None
+                elif st["max"] is not None:
+                    st["max"] = max(st["max"], v)
+
+        def assume(k_):
+            st["unk"].add(k_)
+            return asm.get(k_, 0)
+        val = {k_: n for k_ in lens}
+        seen, end, fv = fin.walk_vals(f, f.entry, val, limit=4000, assume=assume, trace=trace)
+        return st, seen, end, fv
+    # calibration: the polarity of the character tests under which 8 well-formed characters decode to 6 bytes
+    st0, _s, _e, _fv = run_len(8, {})
+    keys = sorted(st0["unk"])
+    asm = None
+    import itertools
+    for combo in itertools.product((0, 1), repeat=min(len(keys), 4)):
+        a_ = dict(zip(keys, combo))
+        st_, seen_, end_, fv_ = run_len(8, a_)
+        if not isinstance(end_, str) and st_["max"] == 5:
+            asm = a_
+            break
+    if asm is None:
+        raise AnalysisBroken("String::fromBase64: no valuation of its character tests decodes 8 characters into 6 bytes (%s)" % keys)
+    bad = None
+    accepted = []
+    for n in range(0, 41):
+        st_, seen_, end_, fv_ = run_len(n, asm)
+        if isinstance(end_, str):
+            bad = ("undetermined", "for an input of %d characters the walk ends with `%s`" % (n, end_))
+            break
+        if st_["max"] == -1 and n > 0:
+            continue        # this length is rejected before anything is decoded
+        accepted.append(n)
+        if st_["max"] is None or st_["cap"] is None:
+            bad = ("undetermined", "for an input of %d characters the reserved size or an output index is not determined" % n)
+            break
+        if st_["max"] >= 0 and st_["max"] + 1 > st_["cap"]:
+            bad = ("bound", "an input of %d well-formed characters is accepted, %d byte(s) are reserved and the decoder stores through "
+                            "index %d" % (n, st_["cap"], st_["max"]))
+            break
+    if bad:
+        chk.bad("C18.d", f, "base64-output-" + bad[0], where,
+                "fromBase64: %s - a write past the reserved output buffer (heap overflow for the boundary lengths where the rounded-up "
+                "capacity does not hide it)" % bad[1], evals=41)
+    else:
+        chk.ok("C18.d", f, "accepted lengths %s...: every output index lies below the reserved size" % accepted[:6], where, "41 input lengths evaluated over well-formed characters", evals=41)
